@@ -180,6 +180,138 @@ var rootAlias = map[string]string{
 	"Xs": "Xs", "Ys": "Ys", "ys": "Ys", "Zs": "Zs", "zs": "Zs",
 }
 
+// Structs that EMBED another struct, so that the fields read by templates are promoted ones.
+// Base is embedded by value in Emb and by pointer in PEmb (never nil here).
+type Base struct {
+	ID   int
+	Code string
+	Tags []string
+	Subs []Emb
+}
+
+// Emb: item type with promoted ID, Code, Tags, Subs and an own field Title.
+type Emb struct {
+	Base
+	Title string
+}
+
+// PEmb: the same with the base embedded by pointer.
+type PEmb struct {
+	*Base
+	Title string
+}
+
+// RootBase / ERoot / PRoot: root data whose collection Ps and scalars Pname, Ptotal are promoted.
+type RootBase struct {
+	Ps     any
+	Pname  string
+	Ptotal int
+}
+
+// ERoot embeds RootBase by value.
+type ERoot struct {
+	RootBase
+	Label string `json:"label"`
+	Total int    `json:"total"`
+	Zs    any    `json:"zs"`
+}
+
+// PRoot embeds RootBase by pointer.
+type PRoot struct {
+	*RootBase
+	Label string `json:"label"`
+	Total int    `json:"total"`
+	Zs    any    `json:"zs"`
+}
+
+// erootAlias: names the embedding roots answer to. Promoted fields by Go name only (whether a
+// promoted field answers to its JSON tag is left unasserted, like in C17).
+var erootAlias = map[string]string{
+	"Ps": "Ps", "Pname": "Pname", "Ptotal": "Ptotal",
+	"Label": "Label", "label": "Label", "Total": "Total", "total": "Total", "Zs": "Zs", "zs": "Zs",
+}
+
+// embAlias: fields of Emb / PEmb items, Go names only.
+var embAlias = map[string]bool{"ID": true, "Code": true, "Title": true, "Tags": true, "Subs": true}
+
+func isEmbRoot(k string) bool { return k == "eroot" || k == "*eroot" || k == "proot" }
+
+// goVal builds the Go value of a description: internal/vals for everything it knows, plus the
+// embedding struct kinds of this package ("emb", "pemb", "*emb" and slices of them), also
+// inside []any and maps.
+func goVal(v vals.V) any {
+	switch v.K {
+	case "[]any":
+		out := make([]any, len(v.L))
+		for i, e := range v.L {
+			out[i] = goVal(e)
+		}
+		return out
+	case "map":
+		out := make(map[string]any, len(v.M))
+		for k, e := range v.M {
+			if e.K != "missing" {
+				out[k] = goVal(e)
+			}
+		}
+		return out
+	case "[]map":
+		out := make([]map[string]any, len(v.L))
+		for i, e := range v.L {
+			out[i], _ = goVal(vals.V{K: "map", M: e.M}).(map[string]any)
+		}
+		return out
+	case "emb":
+		return embVal(v)
+	case "pemb":
+		e := embVal(v)
+		return PEmb{Base: &e.Base, Title: e.Title}
+	case "*emb":
+		e := embVal(v)
+		return &e
+	case "[]emb":
+		out := make([]Emb, len(v.L))
+		for i, e := range v.L {
+			out[i] = embVal(e)
+		}
+		return out
+	case "[]pemb":
+		out := make([]PEmb, len(v.L))
+		for i, e := range v.L {
+			x := embVal(e)
+			out[i] = PEmb{Base: &x.Base, Title: x.Title}
+		}
+		return out
+	case "[]*emb":
+		out := make([]*Emb, len(v.L))
+		for i, e := range v.L {
+			x := embVal(e)
+			out[i] = &x
+		}
+		return out
+	}
+	return v.Go()
+}
+
+func embVal(v vals.V) Emb {
+	e := Emb{Title: v.M["Title"].S}
+	e.ID, _ = v.M["ID"].Go().(int)
+	e.Code = v.M["Code"].S
+	if t, ok := v.M["Tags"]; ok {
+		e.Tags = []string{}
+		for _, x := range t.L {
+			e.Tags = append(e.Tags, x.S)
+		}
+	}
+	if sb, ok := v.M["Subs"]; ok {
+		e.Subs = []Emb{}
+		for _, x := range sb.L {
+			e.Subs = append(e.Subs, embVal(x))
+		}
+	}
+	return e
+}
+
 // recAlias is the same for vals.Rec (as root data and as loop item).
 var recAlias = map[string]string{
 	"Name": "Name", "Title": "Title", "title": "Title", "Count": "Count", "count": "Count", "Kids": "Kids",
@@ -203,7 +335,7 @@ func (d Data) build() any {
 			if s.V.K == "missing" {
 				continue
 			}
-			m[s.N] = s.V.Go()
+			m[s.N] = goVal(s.V)
 		}
 		return m
 	case "rec", "*rec":
@@ -223,15 +355,42 @@ func (d Data) build() any {
 			case "Total":
 				r.Total, _ = s.V.Go().(int)
 			case "Xs":
-				r.Xs = s.V.Go()
+				r.Xs = goVal(s.V)
 			case "Ys":
-				r.Ys = s.V.Go()
+				r.Ys = goVal(s.V)
 			case "Zs":
-				r.Zs = s.V.Go()
+				r.Zs = goVal(s.V)
 			}
 		}
 		if d.Root == "*root" {
 			return &r
+		}
+		return r
+	case "eroot", "*eroot", "proot":
+		b := RootBase{}
+		r := ERoot{}
+		for _, s := range d.Slots {
+			switch s.N {
+			case "Ps":
+				b.Ps = goVal(s.V)
+			case "Pname":
+				b.Pname = s.V.S
+			case "Ptotal":
+				b.Ptotal, _ = s.V.Go().(int)
+			case "Label":
+				r.Label = s.V.S
+			case "Total":
+				r.Total, _ = s.V.Go().(int)
+			case "Zs":
+				r.Zs = goVal(s.V)
+			}
+		}
+		r.RootBase = b
+		switch d.Root {
+		case "*eroot":
+			return &r
+		case "proot":
+			return PRoot{RootBase: &b, Label: r.Label, Total: r.Total, Zs: r.Zs}
 		}
 		return r
 	}
@@ -471,6 +630,14 @@ func TestProp(t *testing.T) {
 	}
 	if ok {
 		rec.Exhaustive(fmt.Sprintf("core2: two nested loops, all name collisions between outer/inner index and item variables and a root name x inner collection x root kinds x v-else (%d cases)", n-n0))
+	}
+	// exhaustive core 3: nested loops over collections promoted from embedded structs
+	n1 := n
+	if ok {
+		core3(each("core3"))
+	}
+	if ok {
+		rec.Exhaustive(fmt.Sprintf("core3: outer loop over []Emb / []PEmb / []*Emb (struct embedding a base by value / by pointer) held by a map, a struct field and a promoted root field x inner loop over the promoted item.Tags / item.Subs x inner variable name x v-else (%d cases)", n-n1))
 	}
 	run.Rapid(t, rec, "nest", genCase, classify, check)
 }
